@@ -60,7 +60,8 @@ def _loop_bounds(ctx, f, rid, is_publish, what):
         for i, e in enumerate(ev):
             if is_publish(e):
                 last_pub = strip(e.d['args'][1])
-            brk = (e.kind == 'call' and not callee_matches(e.d['callee'], 'is_aborted') and not is_noise_call(e.d['callee'])) or e.kind == 'ret'
+            brk = (e.kind == 'call' and not callee_matches(e.d['callee'], 'is_aborted') and not is_noise_call(e.d['callee'])
+                   and not ctx.facts.is_new_fn(e.d['callee'])) or e.kind == 'ret'
             if brk:
                 if cur:
                     groups.append((cur, e))
@@ -179,7 +180,7 @@ def LC3_wait_predicates(ctx):
             bad = []
             n_block = 0
             for p in feasible(cf.paths()):
-                ret = [e for e in p.events if e.kind == 'ret'][0].d['value']
+                ret = fold_bool([e for e in p.events if e.kind == 'ret'][0].d['value'])
                 if ret[0] == 'const' and ret[1] == 'false':
                     continue
                 n_block += 1
@@ -188,8 +189,9 @@ def LC3_wait_predicates(ctx):
                     if ret[0] == 'const' and ret[1] == 'true':
                         ok = any(option_fact(a)[1] == 'None' for a in none) and not any(option_fact(a)[1] == 'Some' for a in none)
                     else:
-                        # returns the test itself: must be `candidate.is_none()`
-                        ok = 'is_none' in show(ret) and has_call(ret, 'Scheduler::lock_finality_candidate') and not (ret[0] == 'un' and ret[1] == 'Not')
+                        # returns the test itself: true exactly when there is no candidate
+                        ot = opt_truth(ret)
+                        ok = ot is not None and ot[1] == 'None' and has_call(ot[0], 'Scheduler::lock_finality_candidate')
                     if not ok:
                         bad.append((p, 'the finality coordinator can sleep while a finality candidate exists'))
                 else:
@@ -200,8 +202,14 @@ def LC3_wait_predicates(ctx):
                             okc = okc or op in ('Ge', 'Gt', 'Eq')
                         else:
                             okc = okc or op in ('Le', 'Lt', 'Eq')
-                    if not rels and ret[0] == 'bin':
-                        op, l, r = ret[1], ret[2], ret[3]
+                    neg = False
+                    rt = ret
+                    while rt[0] == 'un' and rt[1] == 'Not':
+                        rt, neg = rt[2], not neg
+                    if not rels and rt[0] == 'bin' and rt[1] in CMP_NEG:
+                        op, l, r = rt[1], rt[2], rt[3]
+                        if neg:
+                            op = CMP_NEG[op]
                         if has_call(l, 'SchedulerContext::finality_idx'):
                             op = CMP_FLIP.get(op, op)
                         okc = op in ('Ge', 'Gt', 'Eq')
